@@ -503,7 +503,7 @@ func (c *callRun) handlerOp(ctx context.Context, ss grpc.ServerStream, dec func(
 		a.cur.Store("WaitCtx")
 		var tmo <-chan time.Time
 		if c.free {
-			tmo = time.After(3 * time.Second)
+			tmo = time.After(1 * time.Second) // (shorter than the final census waits)
 		}
 		select {
 		case <-ctx.Done():
